@@ -67,6 +67,7 @@ func Parse(file, text string) ([]*Block, error) {
 	var blocks []*Block
 	var cur *Block
 	var last *Clause
+	macros := map[string]string{}
 	lines := strings.Split(text, "\n")
 	for i, raw := range lines {
 		ln := strings.TrimSpace(raw)
@@ -89,7 +90,24 @@ func Parse(file, text string) ([]*Block, error) {
 		if j := strings.IndexAny(body, " \t"); j >= 0 {
 			word, rest = body[:j], strings.TrimSpace(body[j+1:])
 		}
+		// $NAME macros (textual)
+		if word != "define" && strings.Contains(rest, "$") {
+			for k, v := range macros {
+				rest = strings.ReplaceAll(rest, "$"+k, v)
+			}
+		}
 		switch word {
+		case "define":
+			kv := strings.SplitN(rest, " ", 2)
+			if len(kv) == 2 {
+				v := strings.TrimSpace(kv[1])
+				for k, mv := range macros {
+					v = strings.ReplaceAll(v, "$"+k, mv)
+				}
+				macros[kv[0]] = v
+			}
+			last = nil
+			continue
 		case "func":
 			cur = &Block{Kind: "func", Name: rest, File: file, Line: i + 1, Opts: map[string]string{}}
 			blocks = append(blocks, cur)
@@ -487,6 +505,8 @@ func ParseModifies(text string) ([]ModItem, error) {
 			out = append(out, ModItem{"bytes", it[6 : len(it)-1]})
 		case strings.HasPrefix(it, "elems(") && strings.HasSuffix(it, ")"):
 			out = append(out, ModItem{"bytes", it[6 : len(it)-1]})
+		case strings.HasPrefix(it, "chanstate(") && strings.HasSuffix(it, ")"):
+			out = append(out, ModItem{"chan", it[10 : len(it)-1]})
 		case strings.HasPrefix(it, "mapof(") && strings.HasSuffix(it, ")"):
 			out = append(out, ModItem{"map", it[6 : len(it)-1]})
 		case strings.HasSuffix(it, ".*"):
